@@ -325,6 +325,15 @@ def twin_c10(cls, t, hist, r=None):
     if [s == 'ok' for s in sa] != [s == 'ok' for s in b['status']]:
         kinds.append('later-op-differs')
     kinds += diff_obs(a, b, t)
+    if not kinds and len(failed) >= 2:
+        # several calls failed: a later failure may itself be the consequence of the first one. Leave out only the first
+        # failed call; every other call (also the ones that fail legitimately) must then end the same way
+        keep1 = [i for i in range(len(hist)) if i != failed[0]]
+        sub1 = [hist[i] for i in keep1]
+        a1, b1 = observe_pair(cls, t, hist, sub1)
+        if [a1['status'][i] == 'ok' for i in keep1] != [s == 'ok' for s in b1['status']]:
+            kinds.append('later-op-differs')
+        kinds += [k for k in diff_obs(a1, b1, t) if k not in kinds]
     if kinds:
         return (['twin:' + k for k in kinds], {'failed_ops': [hist[i] for i in failed],
                                               'failed_status': [r.status[i] for i in failed]})
@@ -471,6 +480,23 @@ def shrink(cls, t, hist, prop, kind, max_runs=300):
     return hist
 
 
+C11_CORE_SHAPES = ('add;rm', 'add;add;rm', 'add;rm;add')
+
+
+def canonical_rm(hist):
+    out = []
+    nlive = 0
+    for op in hist:
+        op = list(op)
+        if op[0] == 'add':
+            nlive += 1
+        elif op[0] == 'rm' and nlive:
+            op[1] = op[1] % nlive
+            nlive -= 1
+        out.append(op)
+    return out
+
+
 def shape(hist):
     return ';'.join(op[0] + ('-forward' if op[0] == 'add' and op[2] is not None else '') for op in hist)
 
@@ -500,6 +526,11 @@ def signature(t, hist, status, prop, kind, detail):
         sig['failed'] = failed_pairs(hist, status)
     if detail.get('site'):
         sig['site'] = detail['site']
+    if prop == 'C11' and shape(hist) in C11_CORE_SHAPES and all(x == 'ok' for x in status):
+        # pure addition / removal shapes of at most three operations are enumerated exhaustively by the C11 core in both
+        # tiers: judged by exact case (removal indices reduced modulo the number of live children)
+        sig = {'type': t, 'kind': kind, 'layer': 'core', 'case': case_string(canonical_rm(hist))}
+        return sig
     if mech == 'plain':
         # additions (and serialisations) only: the <=3-operation scope is enumerated exhaustively by the cores,
         # so short witnesses are judged by exact case
